@@ -35,9 +35,10 @@ func proxyScenario(x *explore.X) {
 	originCert := x.Choose("origin-certificate", 4) // 0 valid, 1 expired, 2 wrong name, 3 untrusted CA
 	insecure := x.Choose("insecure", 2) == 1
 	domains := x.Choose("mitm-domains", 3) // 0 none (everything is intercepted), 1 include list matches, 2 excluded
+	tlsListener := x.Choose("proxy-listener", 2) == 1 // 0 plain, 1 the proxy itself is reached over TLS (--protocol https)
 	pki := world.NewPKI("harness origin CA")
 	other := world.NewPKI("untrusted CA")
-	opts := world.Options{MITM: true, TransportCAPEM: pki.CAPEM, Insecure: insecure}
+	opts := world.Options{MITM: true, TransportCAPEM: pki.CAPEM, Insecure: insecure, TLSListener: tlsListener}
 	switch domains {
 	case 1:
 		opts.MITMDomains = []string{`(?i)^origin\.test$`, `^192\.0\.2\.10$`, `^2001:db8::10$`}
@@ -63,10 +64,13 @@ func proxyScenario(x *explore.X) {
 	}
 	org, _ := w.Hop(authority, &tls.Config{Certificates: []tls.Certificate{leaf}})
 	raw, _ := w.Client()
-	raw.Send([]byte("CONNECT " + bracket(au.host) + ":" + au.port + " HTTP/1.1\r\nHost: " + bracket(au.host) + ":" + au.port + "\r\n\r\n"))
-	if got := string(raw.Recv()); got != "HTTP/1.1 200 OK\r\n\r\n" {
-		x.Failf("connect-reply", "CONNECT %s answered %q", authority, got)
-		return
+	connectHead := "CONNECT " + bracket(au.host) + ":" + au.port + " HTTP/1.1\r\nHost: " + bracket(au.host) + ":" + au.port + "\r\n\r\n"
+	if !tlsListener {
+		raw.Send([]byte(connectHead))
+		if got := string(raw.Recv()); got != "HTTP/1.1 200 OK\r\n\r\n" {
+			x.Failf("connect-reply", "CONNECT %s answered %q", authority, got)
+			return
+		}
 	}
 	sni := ""
 	switch sniMode {
@@ -81,9 +85,22 @@ func proxyScenario(x *explore.X) {
 	if asked == "" {
 		asked = au.host
 	}
-	what := fmt.Sprintf("CONNECT %s, SNI %q, origin certificate %d, insecure=%v, mitm-domains=%d", authority, sni, originCert, insecure, domains)
+	what := fmt.Sprintf("CONNECT %s, SNI %q, origin certificate %d, insecure=%v, mitm-domains=%d, tls-listener=%v", authority, sni, originCert, insecure, domains, tlsListener)
 	x.Logf("%s", what)
-	tc := world.TLSClient(raw, &tls.Config{ServerName: sni, InsecureSkipVerify: true})
+	var tc *world.TLSPeer
+	if tlsListener {
+		// the connection to the proxy is TLS itself (--protocol https); CONNECT and the intercepted session
+		// both happen inside it
+		var reply string
+		var err error
+		tc, reply, err = world.TLSClientThroughTLSProxy(raw, &tls.Config{InsecureSkipVerify: true}, connectHead, &tls.Config{ServerName: sni, InsecureSkipVerify: true})
+		if tc == nil || reply != "HTTP/1.1 200 OK\r\n\r\n" {
+			x.Failf("connect-reply", "%s: CONNECT over the TLS listener answered %q (%v)", what, reply, err)
+			return
+		}
+	} else {
+		tc = world.TLSClient(raw, &tls.Config{ServerName: sni, InsecureSkipVerify: true})
+	}
 	x.Check()
 	if domains == 2 {
 		// excluded host: the tunnel must be untouched - the client talks TLS to the origin itself
